@@ -90,6 +90,13 @@ int main(int argc, char** argv) {
       err = diff_outputs(c, r0, r, sfmt("between run 0 (offset 0, zero prefill) and run %d (offsets rotated by %d x 8 bytes, prefill %d)", k, k, k % 3).c_str(), true);
     }
     if (err.empty()) { execute(c, e0, r); err = diff_outputs(c, r0, r, "between two identical calls", true); }
+    // where the caller places its buffers relative to each other is not an argument either: all operands packed back to back in one
+    // block (ascending and descending order; disjoint but touching), dirty output
+    for (int adj = 1; adj <= 2 && err.empty(); ++adj) {
+      ExecOpts e; e.prefill = adj; e.adjacent = adj;
+      execute(c, e, r);
+      err = diff_outputs(c, r0, r, adj == 1 ? "between separate buffers and operands packed back to back (ascending)" : "between separate buffers and operands packed back to back (descending)", true);
+    }
     if (!err.empty()) ctx.violation(id, err);
     ctx.end_case(c.nontrivial);
   };
